@@ -108,3 +108,27 @@ def register(M):
       "    register_opt_einsum=\"auto\",\n    compressed=False,\n):",
       "    register_opt_einsum=False,\n    compressed=False,\n):",
       "harmless for the front end: presets are no longer registered with opt_einsum as well", T, harmless=True)
+
+    # ---- reverts of the repairs of FINDINGS_widen-c.md F1-F4 (cf6fb6b, df9c948, f2a0970) ----
+    M("M_C12_r1", ["C12", "C13"], "cotengra/interface.py",
+      "    if lazy_variables:\n        fn = lz_output.get_function(lazy_variables, fold_constants=True)\n    else:\n"
+      "        # every input is constant, the contraction has already been performed\n\n        def fn():\n            return lz_output\n",
+      "    fn = lz_output.get_function(lazy_variables, fold_constants=True)\n",
+      "revert of cf6fb6b (F1): an expression whose operands are ALL constant cannot be built (AttributeError)", T)
+    M("M_C12_r2", ["C12"], "cotengra/interface.py",
+      "    if constants:\n        # handle constants specially with autoray\n",
+      "    if constants is not None:\n        # handle constants specially with autoray\n",
+      "revert of cf6fb6b (F2): an EMPTY constants set goes through the lazy tracing; the one-operand identity expression fails when called (KeyError)", T)
+    M("M_C12_r3", ["C12"], "cotengra/contract.py",
+      "    if tree.N == 1:\n        # a single tensor: there are no pairwise contractions, so any traces,\n"
+      "        # sums and the transposition to the output order are one einsum\n"
+      "        sliced = tree.sliced_inds\n        term = tuple(ix for ix in tree.inputs[0] if ix not in sliced)\n"
+      "        out = tuple(ix for ix in tree.output if ix not in sliced)\n"
+      "        eq = inputs_output_to_eq((term,), out, canonicalize=True)\n"
+      "        return ((node_from_single(0), None, None, False, eq, None),)\n\n",
+      "",
+      "revert of df9c948 (F3): a one-tensor tree has an empty programme again; tree.contract([x]) returns an unbound variable", T)
+    M("M_C12_r4", ["C12"], "cotengra/utils.py",
+      "        isinstance(optimize, (list, tuple))\n        and len(optimize) > 0\n        and isinstance(optimize[0], (int, str))\n",
+      "        isinstance(optimize, (list, tuple))\n        and isinstance(optimize[0], (int, str))\n",
+      "revert of f2a0970 (F4): the empty explicit path raises IndexError as optimize", T)
